@@ -407,6 +407,11 @@ impl Visit for Analyzer<'_> {
 
   fn visit_throw_stmt(&mut self, n: &ThrowStmt) {
     n.visit_children_with(self);
+    // `throw` always throws, whatever its argument is (`visit_expr` does not
+    // record `may_throw` for an identifier or `this`).
+    if matches!(self.scope.end, None | Some(End::Continue)) {
+      self.scope.may_throw = true;
+    }
     self.mark_as_end(n.start(), End::forced_throw());
   }
 
